@@ -100,6 +100,8 @@ func allHistories(n int) [][]string {
 	return out
 }
 
+var c20Deadlocks atomic.Int64
+
 func runC20(seed uint64, n int, tier string) {
 	rng := sim.NewRng(seed)
 	var cases []*c20Case
@@ -137,6 +139,11 @@ func runC20(seed uint64, n int, tier string) {
 	}
 	parallel(len(seq), func(k int) { runC20Case(caseID("C20", seed, seq[k]), cases[seq[k]]) })
 	for _, i := range conc {
+		if c20Deadlocks.Load() >= 3 {
+			// every stress run so far ended in the watchdog: three replays are enough, and each
+			// further one would cost another 20 s
+			break
+		}
 		runC20Case(caseID("C20", seed, i), cases[i])
 	}
 }
@@ -312,6 +319,7 @@ func runC20Case(id string, c *c20Case) {
 	case <-done:
 	case <-timeAfter(20):
 		deadlocked = true
+		c20Deadlocks.Add(1)
 		abort.Store(true)
 		stop.Store(true)
 	}
